@@ -132,6 +132,11 @@ class Parser:
         """Check if we've reached the end of input."""
         return self.current.type == TokenType.EOF
 
+    def _check_target(self, node: Node, what: str) -> None:
+        """Assignment and ++/-- need a variable or property reference as target."""
+        if not isinstance(node, (Identifier, MemberExpression)):
+            raise self._error(f"Invalid left-hand side in {what}")
+
     def _is_keyword(self) -> bool:
         """Check if current token is a keyword (reserved word)."""
         # Keywords that can be used as property names in object literals
@@ -663,6 +668,7 @@ class Parser:
             TokenType.RSHIFT_ASSIGN,
             TokenType.URSHIFT_ASSIGN,
         ):
+            self._check_target(expr, "assignment")
             op = self._advance().value
             right = self._parse_assignment_expression(exclude_in)
             return AssignmentExpression(op, expr, right)
@@ -817,6 +823,7 @@ class Parser:
             TokenType.RSHIFT_ASSIGN,
             TokenType.URSHIFT_ASSIGN,
         ):
+            self._check_target(left, "assignment")
             op = self._advance().value
             right = self._parse_assignment_expression(exclude_in)
             left = AssignmentExpression(op, left, right)
@@ -969,6 +976,7 @@ class Parser:
         if self._check(TokenType.PLUSPLUS, TokenType.MINUSMINUS):
             op_token = self._advance()
             argument = self._parse_unary_expression()
+            self._check_target(argument, "prefix operation")
             return UpdateExpression(op_token.value, argument, prefix=True)
 
         return self._parse_postfix_expression()
@@ -1003,9 +1011,11 @@ class Parser:
                 self._expect(TokenType.RPAREN, "Expected ')' after arguments")
                 expr = CallExpression(expr, args)
             elif self._check(TokenType.PLUSPLUS, TokenType.MINUSMINUS):
-                # Postfix increment/decrement
+                # Postfix increment/decrement: ends the expression (a++ is not a reference)
+                self._check_target(expr, "postfix operation")
                 op = self._advance().value
                 expr = UpdateExpression(op, expr, prefix=False)
+                break
             else:
                 break
 
